@@ -285,7 +285,12 @@ example : ((runEvents (init inlineScn [0, 3]) inlineEvents).log.filter (·.kind 
 example : ((runEvents (init inlineScn [0, 3]) inlineEvents).log.filter (·.kind.inScope)).length = 27 := by decide
 example : (⟨4, .seg, some 4, [4, 3, 0], 0⟩ : Obs) ∈ (runEvents (init inlineScn [0, 3]) inlineEvents).log := by decide
 /-- hypothesis of `C18_unwind_well_scoped`: the coroutine of task 0 at the moment of the cancellation is `WF` on its stack
-(an instance of `reachable_inv`), with three open scopes and two handlers ahead -/
+(an instance of `reachable_inv`), with three open scopes and two handlers ahead; what `unwind` makes of it starts with the
+exit of the innermost scope and the handler of the process that awaits pid 4 -/
+example : ∀ T ∈ (runEvents (init inlineScn [0, 3]) (inlineEvents.take 8)).tasks, WF T.stack T.saved T.code :=
+  (reachable_inv inlineScn [0, 3] (inlineEvents.take 8)).tasks
+example : (((runEvents (init inlineScn [0, 3]) (inlineEvents.take 8)).tasks[0]?).map
+    (fun T => (T.stack, T.saved, T.code.length, T.code.take 1))) = some ([4, 3, 0], [[3, 0], [0], []], 37, [.obs 4 .aw]) := by decide
 example : let T := ((runEvents (init inlineScn [0, 3]) (inlineEvents.take 8)).tasks[0]?).getD default
     ((unwind .cancelled 0 T.code).take 2) = [.pop 4 .cancelled, .handler 3 [3, 0] true] := by decide
 /-- a top-level process cancelled in the middle of its step: its task ends (nothing absorbs), the scope was left (`cancelled`),
